@@ -6,14 +6,34 @@
        received, after every prefix.  The check runs the extracted monitor on the trace of the
        real classes and on the trace of the model for every explored factory (the two traces are
        also compared line by line).
-   Not proved: that the model's trace is accepted for EVERY configuration (whole-factory
-   conservation as a theorem); the claim is partial in that respect. *)
+   (3) conservation inside the edges for every configuration: in every reachable, un-crashed world of
+       every factory the items inside an edge are exactly the items the trace says were put on it
+       and not yet taken (C03_edge_conservation_everywhere, theories/Factory/FactoryCons.v, lifted
+       through every process block).
+   Not proved: that the model's trace is accepted by the monitor for EVERY configuration, i.e. that the
+   items held by the NODES are accounted for too (whole-factory conservation as a theorem); the
+   claim is partial in that respect. *)
 From Coq Require Import List ZArith Bool Arith Permutation Lia.
 Local Open Scope nat_scope.
 From FV Require Import World Conserve.
 From FV Require StoreB StoreBInv StoreBProps.
+From FV Require Factory FactoryInv FactoryCons.
 Import ListNotations.
 Local Open Scope nat_scope.
+
+(* every configuration whose edges start empty, every number of kernel steps, unless the run crashed:
+   the items inside edge e = (items put on e according to the trace) minus (items taken from e), as
+   multisets -- nothing appears in or vanishes from an edge *)
+Theorem C03_edge_conservation_everywhere :
+  forall nodes edges order n,
+    (forall ed, In ed edges -> FactoryCons.cont (est ed) = []) ->
+    let w := FactoryInv.iter_fstep n (Factory.mk_world nodes edges order) in
+    wcrash w = None ->
+    forall e, e < length (wedges w) ->
+      Permutation (FactoryCons.inside e (wlog w))
+                  (StoreB.transit (est (get_edge w e)) ++ StoreB.ready (est (get_edge w e))).
+Proof. exact FactoryCons.edge_conservation. Qed.
+Print Assumptions C03_edge_conservation_everywhere.
 
 Theorem C03_monitor_sound :
   forall esrc l m m', accept esrc m l = Some m' -> NoDup (map fst m) ->
